@@ -109,7 +109,7 @@ def main(tier, seed):
     if tier == "quick":
         confs = [(3, 1, 1, 5), (4, 2, 2, 6), (4, 2, 1, 5), (5, 3, 3, 6)]
         rep.max_paths = 30000
-        rep.time_budget = 200
+        rep.time_budget = 500
     else:
         confs = [(3, 1, 1, 6), (3, 2, 2, 6), (4, 2, 2, 7), (4, 3, 3, 7), (4, 3, 2, 7), (5, 2, 2, 8), (5, 3, 3, 8), (6, 3, 3, 8), (6, 3, 1, 8)]
         rep.max_paths = 400000
